@@ -568,6 +568,7 @@ CLAIM = {
              "seeding of random draws; cache ownership. These exclude the causes of history dependence independently of any request sequence.",
     "note": "Trusted: CPython ast, vsa symbolic folding/event log, the alias transfer rules for ~25 numpy idioms (listed in the module). "
             "Not decided: exhaustive request sequences, library determinism. Known finding: unseeded PIT randomisation.",
-    "technique": "static analysis: alias/effect abstract domain over symbolic values, mutation summaries, intra-procedural alias taint, "
+    "technique": "static analysis: alias/effect abstract domain over symbolic values (copy vs view: index arrays copy, slices and helpers that may "
+                 "return slices give views), mutation summaries, intra-procedural alias taint, "
                  "key-completeness and dunder-consistency lint, seed-dominance, who-may-access",
 }
